@@ -103,12 +103,14 @@ def handle : List String → Option String
     let ss ← parseSettings ss
     let cc ← parseClientCfg cc
     let sc ← parseServerCfg sc
+    let cs := effectiveClient cs cc.flavour
     some (outcomeOut (negotiate cs ss cc sc))
   | ["views", cs, ss, cc, sc] => do
     let cs ← parseSettings cs
     let ss ← parseSettings ss
     let cc ← parseClientCfg cc
     let sc ← parseServerCfg sc
+    let cs := effectiveClient cs cc.flavour
     let o := clientOffer cs cc
     match serverSelect ss sc o with
     | .ok sel =>
@@ -131,6 +133,7 @@ def handle : List String → Option String
     let ss ← parseSettings ss
     let cc ← parseClientCfg cc
     let sc ← parseServerCfg sc
+    let cs := effectiveClient cs cc.flavour
     some ("wfc=" ++ b01 cs.wf ++ " wfs=" ++ b01 ss.wf ++ " plain=" ++ b01 (plainCert cs cc sc) ++
           " sane=" ++ b01 (clientHelloSane cs cc) ++
           " v=" ++ (match commonVersion cs ss with | some v => toString v | none => "-") ++
@@ -138,6 +141,7 @@ def handle : List String → Option String
   | ["offer", cs, cc] => do
     let cs ← parseSettings cs
     let cc ← parseClientCfg cc
+    let cs := effectiveClient cs cc.flavour
     some (offerOut (clientOffer cs cc))
   | ["filter", st, v, suites] => do
     let st ← parseSettings st
